@@ -21,11 +21,13 @@ Record req_case := {
   c_ids : list identity;
   c_req : request;
   c_claim : claim;
+  c_env : env;                               (* upload known to the filer stand-in, POST body, client-sent identity headers *)
   i_type : auth_type;
   i_direct : list dec_obs;                   (* for s3_actions, in that order *)
   i_route : option N;
   i_resp : N * string;
-  i_filer : bool;
+  i_filer : bool;                            (* the filer stand-in saw any operation (lookup, mkdir, upload ...) *)
+  i_fwrite : bool;                           (* ... a data upload (putToFiler) *)
   i_idhdr : string * bool;
   i_route_actions : list (string * string)
 }.
@@ -74,9 +76,9 @@ Fixpoint list_eqb {A B} (f : A -> B -> bool) (l1 : list A) (l2 : list B) : bool 
 Definition pair_str_eqb (a b : string * string) : bool := String.eqb (fst a) (fst b) && String.eqb (snd a) (snd b).
 
 (* model decision vs observed decision of a direct Auth call *)
-Definition dec_matches (d : decision) (o : dec_obs) : bool :=
+Definition dec_matches (e : env) (d : decision) (o : dec_obs) : bool :=
   match d, o with
-  | Run w, DRun name admin => idhdr_eqb (id_header (Run w)) (name, admin)
+  | Run w, DRun name admin => idhdr_eqb (seen_id_header (Run w) e) (name, admin)
   | Reject e, DReject st code => resp_eqb (api_error e) (st, code)
   | _, _ => false
   end.
@@ -93,22 +95,32 @@ Definition req_corr (c : req_case) : bool :=
   (* 1. classification *)
   auth_type_eqb (get_request_auth_type r) (i_type c) &&
   (* 2. the Auth wrapper for every action *)
-  list_eqb dec_matches (map (auth (c_ids c) r (c_claim c)) s3_actions) (i_direct c) &&
+  list_eqb (dec_matches (c_env c)) (map (auth (c_ids c) r (c_claim c)) s3_actions) (i_direct c) &&
   (* 3. the mux table: which route matches *)
   opt_n_eqb (route_match r) (i_route c) &&
   (* 4. handler -> action as written in the source text *)
   list_eqb pair_str_eqb (map (fun rt => (rt_name rt, rt_action rt)) route_table) (i_route_actions c) &&
   (* 5. the request through the real router: Auth answered itself (fixed response, filer
-        untouched, no identity header) or let the handler run (identity headers as set by Auth) *)
+        untouched, identity headers as the client sent them) or let the handler run (identity
+        headers as set by Auth on top of the client's);
+     6. the handler's own verification (PutObject / PutObjectPart / PostPolicy): when the model
+        says the handler refuses, the response is that refusal, no upload reached the filer and
+        (except PutObjectPart's lookup, which precedes the verification) the filer saw nothing *)
   match route_match r with
-  | None => negb (i_filer c) && idhdr_eqb (i_idhdr c) ("", false)
+  | None => negb (i_filer c) && idhdr_eqb (i_idhdr c) (e_client_idhdr (c_env c))
   | Some i =>
       match route_decision (c_ids c) r (c_claim c) i with
-      | Reject e => resp_eqb (api_error e) (i_resp c) && negb (i_filer c) && idhdr_eqb (i_idhdr c) ("", false)
+      | Reject e => resp_eqb (api_error e) (i_resp c) && negb (i_filer c) &&
+                    idhdr_eqb (i_idhdr c) (e_client_idhdr (c_env c))
       | Run w =>
           if N.eqb i list_buckets_index
-          then i_filer c && idhdr_eqb (i_idhdr c) ("", false)     (* authUser sets no header; the handler lists *)
-          else idhdr_eqb (i_idhdr c) (id_header (Run w))
+          then i_filer c && idhdr_eqb (i_idhdr c) (e_client_idhdr (c_env c))     (* authUser sets no header; the handler lists *)
+          else idhdr_eqb (i_idhdr c) (seen_id_header (Run w) (c_env c)) &&
+               match handler_gate (c_ids c) r (c_claim c) (c_env c) i w with
+               | GReject h => resp_eqb (herr_resp h) (i_resp c) && negb (i_fwrite c) &&
+                              (N.eqb i PUT_OBJECT_PART_IDX || negb (i_filer c))
+               | GPass _ => true
+               end
       end
   end.
 
@@ -123,31 +135,100 @@ Fixpoint direct_ok (c : req_case) (acts : list string) (obs : list dec_obs) : bo
   | _, _ => true
   end.
 
+(* evidence that the handler behind Auth ran *)
 Definition router_ran (c : req_case) : bool :=
-  i_filer c || negb (String.eqb (fst (i_idhdr c)) "") || negb (is_auth_reject (i_resp c)).
+  i_filer c || negb (idhdr_eqb (i_idhdr c) (e_client_idhdr (c_env c))) || negb (is_auth_reject (i_resp c)).
 
-Definition req_prop (c : req_case) : bool :=
+Definition is_streaming (t : auth_type) : bool := match t with StreamingSigned => true | _ => false end.
+Definition is_post_policy (t : auth_type) : bool := match t with PostPolicy => true | _ => false end.
+
+(* "takes effect": for the routes whose handler verifies a bypass type itself the request
+   takes effect when it reaches the filer; everywhere else when the handler runs *)
+Definition effect (c : req_case) (i : N) : bool :=
+  if bypass_type (i_type c) && (N.eqb i PUT_OBJECT_IDX || N.eqb i PUT_OBJECT_PART_IDX || N.eqb i POST_POLICY_IDX)
+  then i_filer c else router_ran c.
+
+(* the property's right-hand side on the implementation's classification and the route
+   actions read from the source: header / presigned signature, anonymous, V4 streaming seed
+   (PutObject, PutObjectPart), POST policy (PostPolicyBucket) *)
+Definition effect_spec_obs (c : req_case) (i : N) : bool :=
+  let t := i_type c in
+  match nth_error (i_route_actions c) (N.to_nat i) with
+  | Some (_, action) =>
+      authorized_spec (c_ids c) t (c_claim c) action (rq_bucket (c_req c)) ||
+      (is_streaming t && (N.eqb i PUT_OBJECT_IDX || N.eqb i PUT_OBJECT_PART_IDX) &&
+       seed_spec (c_ids c) (c_req c) (c_claim c)) ||
+      (is_post_policy t && N.eqb i POST_POLICY_IDX && policy_spec (c_ids c) (c_req c) (e_form (c_env c)))
+  | None => authenticated_spec (c_ids c) t (c_claim c)          (* ListBuckets *)
+  end.
+
+(* the identity context a handler may see: name / admin flag of the identity whose
+   signature is valid (or of the anonymous identity) and nothing else *)
+Definition expected_idhdr (c : req_case) : string * bool :=
+  let t := i_type c in
+  let of_id (id : identity) := if String.eqb (id_name id) "" then ("", false) else (id_name id, is_admin (id_actions id)) in
+  if is_sig_type t then
+    match find_cred_spec (c_ids c) (cl_ak (c_claim c)) with Some (id, _, _) => of_id id | None => ("", false) end
+  else match t with
+       | Anonymous => match find (fun i => String.eqb (id_name i) "anonymous") (c_ids c) with
+                      | Some id => of_id id | None => ("", false) end
+       | _ => ("", false)
+       end.
+
+Fixpoint direct_hdr_ok (c : req_case) (obs : list dec_obs) : bool :=
+  match obs with
+  | DRun name admin :: obs' => idhdr_eqb (name, admin) (expected_idhdr c) && direct_hdr_ok c obs'
+  | _ :: obs' => direct_hdr_ok c obs'
+  | [] => true
+  end.
+
+(* authorisation part of the oracle *)
+Definition req_prop_authz (c : req_case) : bool :=
   match c_ids c with
   | [] => true                                  (* no identities configured: the property does not apply *)
   | _ =>
-      direct_ok c s3_actions (i_direct c) &&
+      (* the wrapper alone: for the two types it hands to the handlers unchecked the
+         obligation moves to the router level below *)
+      (bypass_type (i_type c) || direct_ok c s3_actions (i_direct c)) &&
       match i_route c with
       | None => negb (i_filer c)
-      | Some i =>
-          match nth_error (i_route_actions c) (N.to_nat i) with
-          | Some (_, action) =>
-              negb (router_ran c) ||
-              authorized_spec (c_ids c) (i_type c) (c_claim c) action (rq_bucket (c_req c))
-          | None =>                              (* ListBuckets *)
-              negb (i_filer c) || authenticated_spec (c_ids c) (i_type c) (c_claim c)
-          end
+      | Some i => negb (effect c i) || effect_spec_obs c i
       end
+  end.
+
+(* identity-context part of the oracle *)
+Definition req_prop_hdr (c : req_case) : bool :=
+  match c_ids c with
+  | [] => true
+  | _ =>
+      direct_hdr_ok c (i_direct c) &&
+      match i_route c with
+      | None => true
+      | Some i => N.eqb i list_buckets_index || negb (router_ran c) || negb (effect c i) ||
+                  idhdr_eqb (i_idhdr c) (expected_idhdr c)
+      end
+  end.
+
+Definition req_prop (c : req_case) : bool := req_prop_authz c && req_prop_hdr c.
+
+Definition client_sent_idhdr (c : req_case) : bool := negb (idhdr_eqb (e_client_idhdr (c_env c)) ("", false)).
+
+(* finding 2 is reported only when the authorisation part holds, so that no authorisation
+   failure can hide behind a client-sent identity header *)
+Definition req_trig (c : req_case) : option N :=
+  let t2 := if client_sent_idhdr c && req_prop_authz c then Some 2%N else None in
+  match route_match (c_req c) with
+  | Some i =>
+      if trigger1 (c_ids c) (c_req c) (c_env c) i then Some 1%N
+      else if trigger0 (c_ids c) (c_req c) (c_claim c) i then Some 0%N
+      else t2
+  | None => t2
   end.
 
 Definition req_check (c : req_case) : outcome :=
   {| o_corr := req_corr c;
      o_prop := req_prop c;
-     o_trig := if bypass_type (i_type c) then Some 0%N else None;
+     o_trig := req_trig c;
      o_nontrivial := existsb obs_ran (i_direct c) || i_filer c |}.
 
 (* ---------- policy cases ---------- *)
